@@ -310,11 +310,7 @@ let gen_workload r ~id ~tier =
         let chosen = List.filter (fun _ -> rbool r) alive in
         let chosen = if chosen = [] then (match alive with x :: _ -> [ x ] | [] -> []) else chosen in
         let rws = List.map (fun (d, li, di) ->
-            (* a file is removed only when its loader holds no second copy in another search path: the memo of a
-               FileSystemLoader answers the first stat after the removal with an error, where the model searches at once
-               and would find the copy (the results agree again one call later) *)
-            let single = List.length (List.filter (fun dir -> List.exists (fun (k, _) -> sb k = d.key) dir) (Array.to_list tables.(li))) = 1 in
-            (li, di, d.key, (if single && rint r 5 = 0 then (Hashtbl.replace removed d.key (); None)
+            (li, di, d.key, (if rint r 5 = 0 then (Hashtbl.replace removed d.key (); None)
                              else Some (mk [ M.ScItFlat (M.ScFText (bs (Printf.sprintf " v%d-of-%s " k d.key))); M.ScItFlat (flat_leaf ()) ])))) chosen in
         let w' = rewrite_world !cur_w rws (10 * k) in
         cur_w := w';
